@@ -10,7 +10,8 @@ POOL = ["a", "ab", "a_b", "b", "ba", "c", "abc", "d", "aa", "core", "util", "uti
         "r2", "rx", "r_core",          # these three start with the root directory's name "r"
         "r",                           # ... and a directory or file named exactly like the root directory (mysite/mysite)
         "_p", "test_a", "conftest", "Mod", "__main__", "setup"]
-ODD = ["a+b", "c(d", "e-f", "g$", "h[1]"]          # legal file/dir names with regex metacharacters; never imported
+ODD = ["a+b", "c(d", "e-f", "g$", "h[1]", "i\\j"]   # legal file/dir names with regex metacharacters (and a backslash,
+                                                      # an ordinary character of a POSIX file name); never imported
 EXTERNALS = [["os"], ["os", "path"], ["xlib"], ["xlib", "sub"], ["xlib", "sub", "deep"], ["logging", "handlers"],
              ["ab"], ["a_b", "c"], ["rr", "x"], ["r2"], ["abx", "y"]]
 
@@ -45,9 +46,9 @@ def random_project(rng: random.Random, root="r", max_depth=4, n_dirs=None, n_fil
             continue
         taken.add(name)
         files.append({"name": list(name), "py": rng.random() < 0.9})
-    pyfiles = [f["name"] for f in files if f["py"] and not any(ch in c for c in f["name"] for ch in "+($[-")]
+    pyfiles = [f["name"] for f in files if f["py"] and not any(ch in c for c in f["name"] for ch in "+($[-\\")]
     modules = [list(d) for d in dirs] + [f["name"] for f in files if f["py"]]
-    importable = [m for m in modules if not any(ch in c for c in m for ch in "+($[-")]
+    importable = [m for m in modules if not any(ch in c for c in m for ch in "+($[-\\")]
     slots = pj.usable_slots()
     stmts = []
     # concrete layout per file: mostly one statement per line; some files have no import at the start of a line at
@@ -131,7 +132,7 @@ def add_link(project, rng):
     is simply a copy (directories, files, statements with the importing file renamed); only the renderer makes it a
     link ("links": [[link, target]]).  Returns None when the tree has no directory that can be linked."""
     dirs = [tuple(d) for d in project["dirs"]]
-    targets = [d for d in dirs if len(d) > 1 and not any(ch in c for c in d for ch in "+($[-")]
+    targets = [d for d in dirs if len(d) > 1 and not any(ch in c for c in d for ch in "+($[-\\")]
     if not targets:
         return None
     t = rng.choice(targets)
